@@ -6,6 +6,8 @@ import (
 	"fmt"
 	"os"
 	"path/filepath"
+	"sync"
+	"time"
 
 	"github.com/q191201771/lal/pkg/base"
 	"github.com/q191201771/lal/pkg/httpflv"
@@ -29,14 +31,17 @@ type gCfg struct {
 	CapF     int      `json:"capF"`
 	MwBytes  int      `json:"mwBytes"`
 	Record   bool     `json:"record"`
-	Ws       bool     `json:"ws"`     // HTTP-FLV consumers over WebSocket
-	LenMode  string   `json:"lenMode"` // units | edges
+	Ws       bool     `json:"ws"`       // HTTP-FLV consumers over WebSocket
+	LenMode  string   `json:"lenMode"`  // units | edges
+	PushSubs []string `json:"pushSubs"` // relay-push targets (gated stub RTMP servers on loopback)
 }
 
 type gStep struct {
 	Name string `json:"name"`
 	C    string `json:"c"`
 	M    *AMsg  `json:"m"`
+	// predicted deliveries (hint only: how long to wait for what travels over a real connection)
+	Del map[string][]int `json:"del"`
 }
 
 type gScenario struct {
@@ -55,22 +60,23 @@ func (nullObserver) OnNewRtmpSubSession(session *rtmp.ServerSession) error      
 type groupObserver struct{}
 
 func (groupObserver) CleanupHlsIfNeeded(appName string, streamName string, path string) {}
-func (groupObserver) OnHlsMakeTs(info base.HlsMakeTsInfo)                                {}
-func (groupObserver) OnRelayPullStart(info base.PullStartInfo)                           {}
-func (groupObserver) OnRelayPullStop(info base.PullStopInfo)                             {}
+func (groupObserver) OnHlsMakeTs(info base.HlsMakeTsInfo)                               {}
+func (groupObserver) OnRelayPullStart(info base.PullStartInfo)                          {}
+func (groupObserver) OnRelayPullStop(info base.PullStopInfo)                            {}
 
 type gConsumer struct {
-	kind   string // rtmp | flv
-	conn   *MemConn
-	rs     *rtmp.ServerSession
-	fs     *httpflv.SubSession
-	all    []byte // every byte received since join
-	nseen  int    // messages already reported
-	ws     bool
+	kind  string // rtmp | flv | push
+	conn  *MemConn
+	push  *gPushTarget
+	rs    *rtmp.ServerSession
+	fs    *httpflv.SubSession
+	all   []byte // every byte received since join
+	nseen int    // messages already reported
+	ws    bool
 }
 
 type sentMsg struct {
-	msg  base.RtmpMsg
+	msg   base.RtmpMsg
 	woSdf []byte
 }
 
@@ -91,20 +97,54 @@ func groupDriver(env *Env) error {
 		return err
 	}
 	defer os.RemoveAll(tmp)
-	return ReadScenarios(env.In, func(raw json.RawMessage) error {
+	var scs []*gScenario
+	if err := ReadScenarios(env.In, func(raw json.RawMessage) error {
 		var sc gScenario
 		if err := json.Unmarshal(raw, &sc); err != nil {
 			return err
 		}
-		runGroupScenario(&sc, tw, tmp, env.Seed)
+		scs = append(scs, &sc)
 		return nil
-	})
+	}); err != nil {
+		return err
+	}
+	// scenarios are independent (own Group, own consumers, own directory): those with relay-push
+	// targets spend their time waiting for loopback connections, so they run concurrently; the
+	// traces are written in scenario order
+	bufs := make([]bytes.Buffer, len(scs))
+	sem := make(chan struct{}, 12)
+	var wg sync.WaitGroup
+	for i := range scs {
+		run := func(i int) {
+			mw := NewMemTraceWriter(&bufs[i])
+			runGroupScenario(scs[i], mw, tmp, env.Seed)
+			mw.Flush()
+		}
+		if len(scs[i].Cfg.PushSubs) == 0 {
+			run(i)
+			continue
+		}
+		wg.Add(1)
+		sem <- struct{}{}
+		go func(i int) {
+			defer wg.Done()
+			defer func() { <-sem }()
+			run(i)
+		}(i)
+	}
+	wg.Wait()
+	for i := range bufs {
+		tw.Raw(bufs[i].Bytes())
+	}
+	return nil
 }
 
 // drain projects what a consumer received since the last call to message ids.
 func (c *gConsumer) drain(sent map[int]*sentMsg) (ids []int, bad []string) {
-	out, _ := c.conn.Drain()
-	c.all = append(c.all, out...)
+	if c.conn != nil {
+		out, _ := c.conn.Drain()
+		c.all = append(c.all, out...)
+	}
 	ids = []int{}
 	type dm struct {
 		typ     int
@@ -113,7 +153,14 @@ func (c *gConsumer) drain(sent map[int]*sentMsg) (ids []int, bad []string) {
 		hdrOk   bool
 	}
 	var ms []dm
-	if c.kind == "rtmp" {
+	if c.kind == "push" {
+		c.push.mu.Lock()
+		for _, m := range c.push.msgs {
+			want := map[int]int{18: 5, 8: 6, 9: 7}[int(m.Header.MsgTypeId)]
+			ms = append(ms, dm{int(m.Header.MsgTypeId), m.Header.TimestampAbs, m.Payload, m.Header.MsgStreamId == 1 && m.Header.Csid == want})
+		}
+		c.push.mu.Unlock()
+	} else if c.kind == "rtmp" {
 		pm, _ := proj.ReadRtmpMessages(c.all, 4096)
 		for _, m := range pm {
 			want := map[int]int{18: 5, 8: 6, 9: 7}[m.Type]
@@ -155,7 +202,13 @@ func (c *gConsumer) drain(sent map[int]*sentMsg) (ids []int, bad []string) {
 			continue
 		}
 		want := s.msg.Payload
-		if m.typ == 18 {
+		if m.typ == 18 && c.kind == "push" {
+			// relay push: the @setDataFrame string is ensured
+			want = append(append([]byte{}, setDataFramePrefix...), s.woSdf...)
+			if !sdf {
+				bad = append(bad, "meta_without_sdf")
+			}
+		} else if m.typ == 18 {
 			want = s.woSdf
 			if sdf {
 				bad = append(bad, "meta_with_sdf")
@@ -191,9 +244,37 @@ func runGroupScenario(sc *gScenario, tw *TraceWriter, tmp string, seed int64) {
 		cfg.RecordConfig.FlvOutPath = recDir
 	}
 	stream := fmt.Sprintf("s%d", sc.Sc)
+	targets := map[string]*lcOrigin{}
+	for _, t := range sc.Cfg.PushSubs {
+		o := newLcOrigin()
+		if o == nil {
+			continue
+		}
+		defer o.close()
+		targets[t] = o
+		cfg.RelayPushConfig.Enable = true
+		cfg.RelayPushConfig.AddrList = append(cfg.RelayPushConfig.AddrList, o.ln.Addr().String())
+	}
 	g := logic.NewGroup("live", stream, cfg, logic.GroupOption{}, groupObserver{})
 	cons := map[string]*gConsumer{}
-	names := append(append([]string{}, sc.Cfg.RtmpSubs...), sc.Cfg.FlvSubs...)
+	names := append(append(append([]string{}, sc.Cfg.RtmpSubs...), sc.Cfg.FlvSubs...), sc.Cfg.PushSubs...)
+	snapInt := func(k string) int {
+		if v, ok := g.VerifSnapshot()[k].(int); ok {
+			return v
+		}
+		return 0
+	}
+	// what travels to a push target crosses a real connection: wait (bounded) until the target has
+	// received as many messages as the model predicts; what is there afterwards is the observation
+	waitPush := func(hint map[string][]int) {
+		for n, c := range cons {
+			if c.kind != "push" {
+				continue
+			}
+			want := c.nseen + len(hint[n])
+			waitFor(400*time.Millisecond, func() bool { return c.push.count() >= want })
+		}
+	}
 	sent := map[int]*sentMsg{}
 	var pub *rtmp.ServerSession
 	tw.Emit(M{"ev": "reset", "sc": sc.Sc, "cfgId": sc.CfgId})
@@ -254,12 +335,51 @@ func runGroupScenario(sc *gScenario, tw *TraceWriter, tmp string, seed int64) {
 		case "PubArrive":
 			pub = rtmp.NewServerSession(nullObserver{}, NewMemConn("pub"))
 			err := g.AddRtmpPubSession(pub)
+			for _, o := range targets {
+				o := o
+				waitFor(3*time.Second, func() bool { o.mu.Lock(); defer o.mu.Unlock(); return len(o.parked) > 0 })
+			}
 			tw.Emit(M{"ev": "PubArrive", "ok": err == nil})
 		case "PubLeave":
 			g.DelRtmpPubSession(pub)
+			// relay push ends with the publisher: attached sessions are closed by lal; attempts the
+			// targets have not accepted yet are refused now.  Both report back asynchronously.
+			for _, o := range targets {
+				o.mu.Lock()
+				for _, c := range o.parked {
+					c.Close()
+				}
+				o.parked = nil
+				o.mu.Unlock()
+			}
+			if len(targets) > 0 {
+				waitFor(3*time.Second, func() bool { return snapInt("nPushing") == 0 })
+			}
+			waitPush(st.Del)
 			del, bad := drainAll()
+			for n, c := range cons {
+				if c.kind == "push" {
+					delete(cons, n)
+				}
+			}
 			tw.Emit(M{"ev": "PubLeave", "del": del, "bad": bad, "rec": readRec()})
 		case "Join":
+			if o := targets[st.C]; o != nil {
+				// the target accepts the attempt: a real rtmp.ServerSession serves it; lal attaches the session
+				c := &gConsumer{kind: "push", push: &gPushTarget{}}
+				before := snapInt("nPush")
+				ok := false
+				if conn := o.take(); conn != nil {
+					o.mu.Lock()
+					o.serving = conn
+					o.mu.Unlock()
+					go func() { _ = rtmp.NewServerSession(c.push, conn).RunLoop() }()
+					ok = waitFor(3*time.Second, func() bool { return snapInt("nPush") > before })
+				}
+				cons[st.C] = c
+				tw.Emit(M{"ev": "Join", "c": st.C, "ok": ok})
+				continue
+			}
 			c := &gConsumer{conn: NewMemConn(st.C), ws: sc.Cfg.Ws}
 			if isRtmp(st.C) {
 				c.kind = "rtmp"
@@ -275,7 +395,18 @@ func runGroupScenario(sc *gScenario, tw *TraceWriter, tmp string, seed int64) {
 			tw.Emit(M{"ev": "Join", "c": st.C})
 		case "Leave":
 			c := cons[st.C]
-			if c != nil {
+			if c != nil && c.kind == "push" {
+				// the target hangs up
+				o := targets[st.C]
+				o.mu.Lock()
+				if o.serving != nil {
+					o.serving.Close()
+					o.serving = nil
+				}
+				o.mu.Unlock()
+				waitFor(3*time.Second, func() bool { return snapInt("nPushing") < len(targets) || snapInt("nPush") == 0 })
+				delete(cons, st.C)
+			} else if c != nil {
 				if c.kind == "rtmp" {
 					g.DelRtmpSubSession(c.rs)
 				} else {
@@ -311,6 +442,7 @@ func runGroupScenario(sc *gScenario, tw *TraceWriter, tmp string, seed int64) {
 				}
 			}
 			g.OnReadRtmpAvMsg(msg)
+			waitPush(st.Del)
 			del, bad := drainAll()
 			mm := *m
 			mm.Sz = wsize
@@ -324,9 +456,35 @@ func runGroupScenario(sc *gScenario, tw *TraceWriter, tmp string, seed int64) {
 	for _, c := range cons {
 		if c.kind == "rtmp" {
 			g.DelRtmpSubSession(c.rs)
-		} else {
+		} else if c.kind == "flv" {
 			g.DelHttpflvSubSession(c.fs)
 		}
 	}
 	readRec()
 }
+
+// gPushTarget is the stub relay-push target: the observer of a real rtmp.ServerSession that records
+// every message lal pushes to it.
+type gPushTarget struct {
+	mu   sync.Mutex
+	msgs []base.RtmpMsg
+}
+
+func (t *gPushTarget) OnRtmpConnect(session *rtmp.ServerSession, opa rtmp.ObjectPairArray) {}
+func (t *gPushTarget) OnNewRtmpPubSession(session *rtmp.ServerSession) error {
+	session.SetPubSessionObserver(t)
+	return nil
+}
+func (t *gPushTarget) OnNewRtmpSubSession(session *rtmp.ServerSession) error { return nil }
+func (t *gPushTarget) OnReadRtmpAvMsg(msg base.RtmpMsg) {
+	t.mu.Lock()
+	t.msgs = append(t.msgs, msg.Clone())
+	t.mu.Unlock()
+}
+func (t *gPushTarget) count() int {
+	t.mu.Lock()
+	defer t.mu.Unlock()
+	return len(t.msgs)
+}
+
+var setDataFramePrefix = []byte{2, 0, 13, '@', 's', 'e', 't', 'D', 'a', 't', 'a', 'F', 'r', 'a', 'm', 'e'}
